@@ -321,18 +321,23 @@ class TFLiteSerialiser:
                 # the reader replaces an implicit depth multiplier (0) by the calculated one and keeps the original value here
                 attrs["depth_multiplier"] = attrs["channel_multiplier"]
 
-            # Serialize VarHandleOptions (only op that have attributes with type String)
-            if "container" in attrs:
-                attrs["container"] = builder.CreateString(attrs["container"])
-            if "shared_name" in attrs:
-                attrs["shared_name"] = builder.CreateString(attrs["shared_name"])
+            # Serialize VarHandleOptions (only op that have attributes with type String). A string that is absent in the source
+            # model (None) stays absent
+            absent_strings = []
+            for str_attr in ("container", "shared_name"):
+                if str_attr in attrs:
+                    if attrs[str_attr] is None:
+                        del attrs[str_attr]
+                        absent_strings.append(str_attr)
+                    else:
+                        attrs[str_attr] = builder.CreateString(attrs[str_attr])
 
             builtin_opt_offset, custom_opt_offset = opt_serializer.serialize(builder, attrs)
 
             # report any missing attributes that could not be written during serialize().
             # operators that have been created internally (i.e. not created as part of reading an input network) may not
             # have the write error attribute
-            attribute_write_error = attrs.get("attribute_write_error", [])
+            attribute_write_error = [a for a in attrs.get("attribute_write_error", []) if a not in absent_strings]
             if len(attribute_write_error) != 0:
                 print(
                     f"Warning: Could not write the following attributes to {optype_to_builtintype(op.type)}"
